@@ -716,15 +716,13 @@ theorem c18_real_agrees (r : Rec S) (h : RecWF r) (parts : List RP) (raw : List 
     cases a <;> simpa [resultNames, RP.names, Az.names] using hraw
   · simp at hw
 
-deriving instance DecidableEq for Except
-
 /-- the hypotheses are satisfiable: `(x, y, z, t, charge)`, `rotateZ`-like result -/
 example :
     let r : Rec Int := ⟨⟨{ mom := false, az := .xy, lon := some .z, tmp := some .t, be := .ak }, [1, 2, 3, 4]⟩,
       [("charge", -1)]⟩
     RecWF r ∧ realWrap [.az .xy] 1 r.fields [10, 20] =
       .ok (4, [("x", 10), ("y", 20), ("z", 3), ("t", 4), ("charge", -1)]) := by
-  refine ⟨⟨by decide, by decide, by decide⟩, by decide⟩
+  refine ⟨⟨by decide, by decide, by decide⟩, by rfl⟩
 
 /-! ### where the real branches deviate from the documented rule (witnesses; replayed on the real code) -/
 
@@ -737,14 +735,16 @@ theorem c18_real_deviation_rotateZ :
     realWrap [.az .xy] 1 self [10, 20] =
       .ok (2, [("x", 10), ("y", 20), ("px", 1), ("py", 2), ("pz", 3), ("E", 4), ("charge", 5)])
     ∧ carry self = [("charge", 5)] := by
-  decide
+  intro self
+  exact ⟨by rfl, by decide⟩
 
 /-- same array, `rotateX` (branch `[Azimuthal, Longitudinal]`): a 3D class with `x, y, z, px, py, E, charge` -/
 theorem c18_real_deviation_rotateX :
     let self : List (String × Int) := [("px", 1), ("py", 2), ("pz", 3), ("E", 4), ("charge", 5)]
     realWrap [.az .xy, .lon .z] 1 self [10, 20, 30] =
       .ok (3, [("x", 10), ("y", 20), ("z", 30), ("px", 1), ("py", 2), ("E", 4), ("charge", 5)]) := by
-  decide
+  intro self
+  rfl
 
 /-- same array, the three branches with the 17-name tuple (`to_xy`, `to_xyz`, `boostX`/`to_xyzt`): `px`, `py` survive
 as "extra" fields -/
@@ -758,7 +758,8 @@ theorem c18_real_deviation_mass :
     let self : List (String × Int) := [("pt", 1), ("phi", 2), ("eta", 3), ("mass", 4)]
     realWrap [.az .xy, .lon .z] 1 self [10, 20, 30] =
       .ok (3, [("x", 10), ("y", 20), ("z", 30), ("mass", 4)]) := by
-  decide
+  intro self
+  rfl
 
 /-- field ORDER: the pass-through branches keep the operand's order for stored coordinates AND other fields together,
 so with `ak.zip({"x","charge","y","z","t"}, with_name="Vector4D")` the result of `rotateZ` is `x, y, charge, z, t`
@@ -767,14 +768,16 @@ theorem c18_real_deviation_order :
     let self : List (String × Int) := [("x", 1), ("charge", 5), ("y", 2), ("z", 3), ("t", 4)]
     realWrap [.az .xy] 1 self [10, 20] =
       .ok (4, [("x", 10), ("y", 20), ("charge", 5), ("z", 3), ("t", 4)]) := by
-  decide
+  intro self
+  rfl
 
 /-- a binary operation in the pass-through branches (`num_vecargs = 2`, e.g. planar `add`) still picks the class from
 the literal fields of the handler but writes the declared coordinates only -/
 theorem c18_real_deviation_binary_dim :
     let self : List (String × Int) := [("x", 1), ("y", 2), ("t", 4)]
     realWrap [.az .xy] 2 self [10, 20] = .ok (4, [("x", 10), ("y", 20)]) := by
-  decide
+  intro self
+  rfl
 
 end
 end VG
